@@ -1118,6 +1118,10 @@ wrapped_interval<Number>::URem(const wrapped_interval<Number> &x) const {
 template <typename Number>
 wrapped_interval<Number>
 wrapped_interval<Number>::ZExt(unsigned bits_to_add) const {
+  // top has no bitwidth: unsigned_split cannot be called on it
+  if (is_top()) {
+    return wrapped_interval<Number>::top();
+  }
   std::vector<wrapped_interval<Number>> intervals;
   unsigned_split(intervals);
 
@@ -1141,6 +1145,10 @@ wrapped_interval<Number>::ZExt(unsigned bits_to_add) const {
 template <typename Number>
 wrapped_interval<Number>
 wrapped_interval<Number>::SExt(unsigned bits_to_add) const {
+  // top has no bitwidth: signed_split cannot be called on it
+  if (is_top()) {
+    return wrapped_interval<Number>::top();
+  }
   std::vector<wrapped_interval<Number>> intervals;
   signed_split(intervals);
 
